@@ -29,12 +29,18 @@ META = {
 
 def shards(tier):
     if tier == "quick":
-        return [{"label": "cases%d" % i, "n": 60} for i in range(12)]
-    return [{"label": "cases%d" % i, "n": 2500} for i in range(16)]
+        return [{"label": "cases%d" % i, "n": 60} for i in range(12)] + [{"label": "repotests", "kind": "repotests", "n": 0}]
+    return [{"label": "cases%d" % i, "n": 2500} for i in range(15)] + \
+           [{"label": "repotests", "kind": "repotests", "n": 0, "timeout_s": 3600}]
 
 
 def cases(ctx):
     rng = ctx.rng
+    if ctx.shard.get("kind") == "repotests":
+        from .. import repotests
+
+        repotests.run(ctx, "C17")
+        return
     for i in range(ctx.shard["n"]):
         c = gen.cube_case(rng, min_dims=0, max_dims=3, max_axes=2, n=gen.pick(rng, [1, 3, 6, 12, 40]),
                           allow_outside_common=False, explicit_shape=True, max_extra=3)
